@@ -10,11 +10,11 @@ if [ -n "$(git -C /repo status --porcelain)" ]; then echo "/repo not clean"; exi
 for d in $dirs; do
   id=$(basename $d); prop=${id%%_*}
   props="$prop"; [ -f $d/also.txt ] && props="$props $(cat $d/also.txt)"
-  git -C /repo apply $d/patch.diff || { echo "$id: patch does not apply"; continue; }
+  git -C /repo apply /verif/$d/patch.diff || { echo "$id: patch does not apply"; continue; }
   for p in $props; do
     log=/tmp/nbv_seed_${id}_$p.log
     start=$(date +%s)
-    VERIF_SEED=${VERIF_SEED:-0} timeout 3000 bin/check $p quick > $log 2>&1; rc=$?
+    VERIF_SEED=${VERIF_SEED:-0} timeout 3000 bin/check $p --tier quick > $log 2>&1; rc=$?
     secs=$(( $(date +%s) - start ))
     python3 - "$d" "$p" "$rc" "$log" "$secs" <<'PY'
 import json, sys, re
